@@ -47,16 +47,31 @@ INT_SET_FUNCS = {
 }
 # order-sensitive consumption that is harmless, with the reason (verified
 # by a dedicated check below where stated)
-ORDER_EXCEPTIONS = {
-    ("mokapot.parsers.fasta._group_proteins", "matches"):
-        "each matching group is renamed independently; only the insertion "
-        "order of the returned dict depends on the order, and read_fasta "
-        "uses that dict through len() only (checked)",
+def _is_group_candidates(t):
+    return any(isinstance(x, tuple) and x and x[0] in ("call", "mcall")
+               and str(x[1] if x[0] == "call" else x[2]).endswith(
+                   "intersection") for x in walk_term(t))
+
+
+def _is_column_difference(t):
+    return any(isinstance(x, tuple) and x and x[0] == "bin" and x[1] == "-"
+               and all(isinstance(y, tuple) and y[0] == "call"
+                       and y[1] == "builtins.set" for y in x[2:4])
+               for x in walk_term(t))
+
+
+# accepted order-dependent consumptions, keyed by function and by what the
+# set IS (a predicate on its reconstructed term), never by a variable name
+ORDER_EXCEPTIONS = [
+    ("mokapot.parsers.fasta._group_proteins", _is_group_candidates,
+     "each matching group is renamed independently; only the insertion "
+     "order of the returned dict depends on the order, and read_fasta "
+     "uses that dict through len() only (checked)"),
     ("mokapot.parsers.pin.drop_missing_values_and_fill_spectra_dataframe",
-     "na_mask-columns"):
-        "column order of the NaN mask only; rows are aligned by column name "
-        "in pd.concat and the result is consumed by membership tests",
-}
+     _is_column_difference,
+     "column order of the NaN mask only; rows are aligned by column name "
+     "in pd.concat and the result is consumed by membership tests"),
+]
 
 
 def run(ctx):
@@ -332,6 +347,7 @@ def _set_order(ctx, reach):
     prog = ctx.prog
     n_sets = 0
     findings = 0
+    term_cache = {}
     for q in sorted(reach):
         f = prog.funcs.get(q)
         if f is None or isinstance(f.node, ast.Lambda):
@@ -459,10 +475,15 @@ def _set_order(ctx, reach):
                 tgt = ""
                 if isinstance(stmt, ast.Assign):
                     tgt = ast.unparse(stmt.targets[0])
-                for (fq, name), reason in ORDER_EXCEPTIONS.items():
-                    if fq == q and (name == tgt or name.split("-")[0]
-                                    == tgt or name == ast.unparse(e)):
-                        key = reason
+                for fq, pred, reason in ORDER_EXCEPTIONS:
+                    if fq == q:
+                        if q not in term_cache:
+                            term_cache[q] = Terms(DefUse(prog, f))
+                        try:
+                            if pred(term_cache[q].of(e)):
+                                key = reason
+                        except Exception:       # term not reconstructible
+                            pass
                 if key:
                     ctx.ok("C08b-set-order", f,
                            f"{how}: {ast.unparse(e)[:50]} -> {tgt}", key)
